@@ -10,7 +10,7 @@ META = {
                    'requested from the link sum to the declared frame length, (R13.3) the header-size guard tested on '
                    'the path equals the header bytes consumed on it and its failing edge returns Err without reading, '
                    '(R13.4) no zero-size read can reach Link::read from the deframer. Decides the structural clauses; '
-                   '(R13.5) the declared length and the security flags are decoded bit-exactly (bit-provenance abstract domain compared with MS-RDPBCGR 2.2.9.1.2).',
+                   '(R13.6) the frame kind as a function of the first byte, folded statically for all 256 values: TPKT exactly for version byte 3, fast-path for every byte whose action bits are 00; (R13.5) the declared length and the security flags are decoded bit-exactly (bit-provenance abstract domain compared with MS-RDPBCGR 2.2.9.1.2).',
     'assumptions': ['std::io::Read::read_exact fills the buffer or fails (std contract)',
                     'vec![0; n] has length n',
                     ],
@@ -38,14 +38,21 @@ def fmt_set(s_):
 
 
 def is_zero_test(e, target):
-    """e is Eq(target, 0) / Ne(target,0) -> returns 'eq'/'ne' else None"""
+    """e separates target == 0 from target != 0 (target unsigned): Eq/Ne(target, 0), Lt(target, 1), Le(target, 0), Gt(target, 0),
+    Ge(target, 1) and their mirrored forms -> 'eq' if e true means zero, 'ne' if e true means non-zero, else None"""
     e = strip(e)
-    if e[0] == 'bin' and e[1] in ('Eq', 'Ne'):
-        a, b = e[2], e[3]
-        for x, y in ((a, b), (b, a)):
-            y = strip(y)
-            if y[0] == 'const' and y[1] == 0 and same_value(x, target):
-                return 'eq' if e[1] == 'Eq' else 'ne'
+    if e[0] != 'bin' or e[1] not in ('Eq', 'Ne', 'Lt', 'Le', 'Gt', 'Ge'):
+        return None
+    op, a, b = e[1], e[2], e[3]
+    mirror = {'Lt': 'Gt', 'Gt': 'Lt', 'Le': 'Ge', 'Ge': 'Le', 'Eq': 'Eq', 'Ne': 'Ne'}
+    for x, y, o in ((a, b, op), (b, a, mirror[op])):
+        y = fold(y)
+        if y[0] == 'const' and y[1] is not None and same_value(x, target):
+            c = y[1]
+            if (o, c) in (('Eq', 0), ('Lt', 1), ('Le', 0)):
+                return 'eq'
+            if (o, c) in (('Ne', 0), ('Gt', 0), ('Ge', 1)):
+                return 'ne'
     return None
 
 
